@@ -196,6 +196,7 @@ ATTRS = [
     (' disabled', (("disabled", None),)),
     (' k="x>y" j="it\'s"', (("k", "x>y"), ("j", "it's"))),
     (' k="a&amp;b"', (("k", "a&b"),)),
+    (' class="c\td\nx"', (("class", "c\td\nx"),)),  # class tokens are separated by ANY white space
 ]
 LEAVES = [
     ("x", ("Data", "", (), "x", ())),
